@@ -51,7 +51,8 @@ def check(repo: Repo, rep: Report) -> None:
         has_flag = lambda s_: any(p_ and cell_name(e_) == flag for e_, p_ in s_.ctx.guards)
         # id bumps
         for k, h in outer.items():
-            bumps = [s for s in sites(h) if isinstance(s.node, ast.AugAssign) and cell_name(s.node.target) == idc and isinstance(s.node.op, ast.Add)]
+            bumps = [s for s in sites(h) if isinstance(s.node, ast.AugAssign) and cell_name(s.node.target) == idc and isinstance(s.node.op, ast.Add)
+                     and not (isinstance(s.node.value, ast.Constant) and s.node.value.value == 0)]
             ok = len(bumps) == 1 and not [b for b in bumps[0].ctx.branch if b[1] != "try"]
             rep.ob("R1-stale-timer", h, f"{name}.{k}: id bumped", ok,
                    f"{name}: {k} does not advance the id: a timer armed for an earlier element still emits after this notification")
